@@ -477,6 +477,42 @@ def context_calls():
                 f()
             except Exception:  # noqa
                 pass
+    def reload_modules(objs):
+        # the package's modules re-executed while objects made from the earlier copies are alive (importlib.reload, IPython autoreload)
+        import importlib
+        import localcider.backend.sequence as m1
+        import localcider.backend.restable as m2
+        import localcider.backend.sequenceComplexity as m3
+        import localcider.backend.data.aminoacids as m4
+        for m in (m4, m2, m3, m1):
+            importlib.reload(m)
+        # ... and the session simply goes on: new objects, objects derived from old ones, wrappers around old and new backend
+        # objects, linear plots of both (whatever works in a fresh session works after a reload)
+        bad = []
+        from localcider.sequenceParameters import SequenceParameters as SP
+        import localcider.backend.sequence as S2
+        import matplotlib.pyplot as plt
+        old = objs["A"]
+        steps = [("a shuffle of an object made before the reload", lambda: old.get_shuffled_sequence().get_sequence()),
+                 ("SequenceParameters(SeqObj=<backend object of the reloaded class>)", lambda: SP(SeqObj=S2.Sequence(SEQ_A)).get_kappa()),
+                 ("SequenceParameters(SeqObj=<old backend object>)", lambda: SP(SeqObj=old.SeqObj).get_FCR()),
+                 ("a new object's delta-max permutant", lambda: SP(SEQ_D).get_deltaMax(True)),
+                 ("a new object's delta", lambda: SP(SEQ_A).get_delta()),
+                 ("a new object's reduced alphabet", lambda: SP(SEQ_A).get_reduced_alphabet_sequence(4)),
+                 ("a linear plot of an old object", lambda: old.show_linearNCPR(5, getFig=True)),
+                 ("a linear plot of a shuffle", lambda: old.get_shuffled_sequence([0]).show_linearHydropathy(5, getFig=True)),
+                 ("a linear plot of a new object", lambda: SP(SEQ_A).show_linearFCR(5, getFig=True)),
+                 ("a diagram of states of a new object", lambda: SP(SEQ_A).show_phaseDiagramPlot(getFig=True))]
+        for what, f in steps:
+            try:
+                with core.quiet():
+                    f()
+            except Exception as e:  # noqa
+                bad.append(("fails-after-module-reload", "after importlib.reload of the backend modules, %s raised %r" % (what, e)))
+            finally:
+                plt.close("all")
+        return bad
+
     def degenerate_calls(objs):
         # calls that are accepted but take a shortcut / early return (absent groups, full-length windows, boundary pH, empty lists)
         for o in objs.values():
@@ -492,7 +528,8 @@ def context_calls():
                     f()
                 except Exception:  # noqa
                     pass
-    return [("degenerate-arguments", degenerate_calls), ("setters-on-derived-objects", derived_then_set), ("show-plots", show_plots), ("save-plots", save_plots), ("moves-and-permutants", moves), ("sequence-file", from_file),
+    return [("interpreter-state: numpy errors raise, warnings are errors, stdout is ASCII-only", None), ("backend modules reloaded", reload_modules),
+            ("degenerate-arguments", degenerate_calls), ("setters-on-derived-objects", derived_then_set), ("show-plots", show_plots), ("save-plots", save_plots), ("moves-and-permutants", moves), ("sequence-file", from_file),
             ("setters-on-other-objects", other_object), ("wang-landau-run", wl_run), ("rejected-calls", rejected_calls)]
 
 
@@ -504,15 +541,37 @@ def task_context(k):
     cname, cfun = context_calls()[k]
     objs = e.rebuild([])
     err = None
-    try:
-        with core.quiet():
-            cfun(objs)
-    except BaseException as ex:  # noqa
-        err = repr(ex)
+    import contextlib
+    import warnings
+    import numpy as _np
+    stack = contextlib.ExitStack()
+    if cfun is None:
+        # not a call but a state of the interpreter in which every query is then made
+        old_err = _np.geterr()
+        stack.callback(lambda: _np.seterr(**old_err))
+        stack.enter_context(warnings.catch_warnings())
+        warnings.simplefilter("error")
+        _np.seterr(all="raise")
+        import io as _io
+        import sys as _sys
+        old_out = _sys.stdout
+        stack.callback(lambda: setattr(_sys, "stdout", old_out))
+        _sys.stdout = _io.TextIOWrapper(_io.BytesIO(), encoding="ascii", errors="strict", write_through=True)
+        H.NOQUIET[0] = True
+        stack.callback(lambda: H.NOQUIET.__setitem__(0, False))
+    else:
+        try:
+            with core.quiet():
+                ret = cfun(objs)
+            for kk, w in (ret or []):
+                acc.viol(kk, w, {"kind": "context", "tier": TIER[0], "context": cname, "op": names[0]})
+        except BaseException as ex:  # noqa
+            err = repr(ex)
     acc.states += 1
     acc.traces += 1
     acc.extra["context_errors"] = [] if err is None else ["%s: %s" % (cname, err)]
-    for j, op in enumerate(e.ops):
+    with stack:
+      for j, op in enumerate(e.ops):
         r = H.run_op(op, objs)
         acc.transitions += 1
         acc.evaluations += 1
@@ -551,12 +610,25 @@ def replay(case):
             ref = H.run_op(e.ops[j], build(only=case["op"].split(".", 1)[0]))
         k = [c[0] for c in context_calls()].index(case["context"])
         objs = e.rebuild([])
-        try:
-            with core.quiet():
-                context_calls()[k][1](objs)
-        except BaseException:  # noqa
-            pass
-        got = H.run_op(e.ops[j], objs)
+        cf = context_calls()[k][1]
+        if cf is None:
+            import warnings
+            import numpy as _np
+            old_err = _np.geterr()
+            with warnings.catch_warnings():
+                warnings.simplefilter("error")
+                _np.seterr(all="raise")
+                try:
+                    got = H.run_op(e.ops[j], objs)
+                finally:
+                    _np.seterr(**old_err)
+        else:
+            try:
+                with core.quiet():
+                    cf(objs)
+            except BaseException:  # noqa
+                pass
+            got = H.run_op(e.ops[j], objs)
         if got != ref:
             return [{"key": "depends-on-other-api-calls:" + case["op"].split(".", 1)[1],
                      "what": "after '%s', %s returned %r, fresh %r" % (case["context"], case["op"], _short(got), _short(ref)), "case": case}]
@@ -704,7 +776,7 @@ def run(tier, seed, t0):
              "result must be bit-identical to the same call made first on a fresh object that is ALONE in a pristine world, stored sequence and "
              "phosphosites unchanged; merge validation: up to %d alternative histories per state are expanded too and must agree "
              "on every result and successor state. Phase 1b (independent of state merging): for every call i, a fresh world runs i and "
-             "then every call of the same object in turn (all ordered same-object pairs). Phase 3: after each of 9 groups of calls (incl. setters used on objects derived from the live ones by shuffles with nothing left to move) (incl. accepted-but-degenerate arguments: absent kappa_X groups, full-length windows, boundary pH) from "
+             "then every call of the same object in turn (all ordered same-object pairs). Phase 3: after each of 9 groups of calls, and with every query made while numpy errors raise and warnings are errors, (incl. setters used on objects derived from the live ones by shuffles with nothing left to move) (incl. accepted-but-degenerate arguments: absent kappa_X groups, full-length windows, boundary pH) from "
              "other API areas (show plots, save plots, moves and permutants, reading a sequence file, setters on other objects, a "
              "Wang-Landau run, rejected calls) every read-only call must still answer as on a fresh object. Phase 2: %d inputs chosen to collide on coarse cache keys (equal charge counts at "
              "different lengths, equal composition in different spellings, permutations, equal strings): for every input a, a fresh "
